@@ -65,6 +65,10 @@ def supply(text, form, tmpdir):
         return text, None
     if form == 'lines':
         return text.splitlines(keepends=True), None
+    if form == 'bare-lines':
+        return text.split('\n'), None            # lines without terminators (what str.splitlines / split give a caller)
+    if form == 'line-iterator':
+        return (l for l in text.splitlines()), None
     if form == 'stringio':
         return io.StringIO(text, newline=None), None
     path = os.path.join(tmpdir, 'in.md')
@@ -190,7 +194,7 @@ def run_input(ctx, text, source, depth_known=None, tmpdir=None, pyg_every=20, nv
     nontrivial = any(c in text for c in '*_`[]<>#-+>|&\\~')
     if nontrivial:
         ctx.seen('nontrivial', text)
-    forms = ['str', 'lines', 'stringio']
+    forms = ['str', 'lines', 'stringio', 'bare-lines', 'line-iterator']
     for rname, opts in BASE_CONFIGS:
         execute(ctx, text, rname, opts, rng.choice(forms), source, depth_known, tmpdir)
     for _ in range(nvariants):
